@@ -22,8 +22,8 @@ from .. import guards as G
 from .. import instrs as I
 from ..model import AnalysisError, Unknown, dotted, src
 
-TECHNIQUE = "dispatch exhaustiveness, must-pass-once CFG path rule, None-guard dominance, handler dataflow signatures vs reference semantics (static analysis)"
-ENGINES = ["model", "flow", "instrs"]
+TECHNIQUE = "dispatch exhaustiveness, must-pass-once CFG path rule, None-guard dominance, handler dataflow signatures vs reference semantics; abstract interpretation of small functions over an enumerated finite domain by the checker's own AST interpreter (static analysis)"
+ENGINES = ["model", "flow", "instrs", "circuit"]
 EXPLANATION = (
     "Over backend/executor.py and lang/instr/core.py: every listed classical instruction is dispatched to a handler; every "
     "handler (21 under @inc_program_counter plus the branch handler) updates the program counter exactly once on every "
